@@ -13,8 +13,9 @@
 from __future__ import annotations
 
 import ast
+from engine.util import clone_ast
 import re
-from typing import List
+from typing import Dict, List
 
 from engine.src import FunctionInfo, own_nodes, own_nodes_incl_lambda, src_of, AnalysisError
 from engine.affine import lin, Lin, LinErr
@@ -22,7 +23,7 @@ from engine.util import kwarg, is_self_attr
 from .pairing_rules import check_coindex, pairing
 from .c08 import _parallel_sites, _strip_progress
 from .common import resolve_call
-from .sem import expander, ctext, want, xt, bind, calls, paths, stmt_of, defs_texts, guarded_values, gather_alternatives, same_selection, RAISE
+from .sem import truth_of, expander, ctext, want, xt, bind, calls, paths, stmt_of, defs_texts, guarded_values, gather_alternatives, same_selection, RAISE
 
 RULES = {
     "C17.a": "resampling indices: randint(low=0, high=X.shape[0] (exclusive), size) — every row eligible, none out of range (affine equality)",
@@ -47,6 +48,40 @@ def _task(repo, fit: FunctionInfo):
     return resolve_call(repo, fit, fake), sites[0]
 
 
+def _roles(repo, fit: FunctionInfo, task: FunctionInfo, site) -> Dict[str, Optional[str]]:
+    """which parameter of the task receives the estimator, X, y, sample_weight and
+    alpha: decided by what the call site passes (not by position)"""
+    c, gen, inner, f = site
+    b = bind(inner, task.named_params)
+    ex = expander(repo)
+    fX, fy, fsw = fit.named_params[1:4]
+    roles: Dict[str, Optional[str]] = {"est": None, "X": None, "y": None, "sw": None, "alpha": None, "index": None}
+    lv_names = {n.id for n in ast.walk(gen.generators[0].target) if isinstance(n, ast.Name)}
+    for prm, arg in b.items():
+        t = src_of(arg)
+        if t == fX:
+            roles["X"] = prm
+        elif t == fy:
+            roles["y"] = prm
+        elif t == fsw:
+            roles["sw"] = prm
+        elif t in ("self.alpha",) or ex.text(arg, fit, stmt_of(c)) == "self.alpha":
+            roles["alpha"] = prm
+        elif isinstance(arg, ast.Subscript) and isinstance(arg.value, ast.Name) and isinstance(arg.slice, ast.Name) and arg.slice.id in lv_names:
+            roles["est"] = prm
+        elif isinstance(arg, ast.Name) and arg.id in lv_names:
+            # either the index itself or the model drawn from zip(.., estimators)
+            it = gen.generators[0].iter
+            is_zip = isinstance(it, ast.Call) and src_of(it.func) == "zip"
+            if is_zip and isinstance(gen.generators[0].target, ast.Tuple):
+                pos = [k for k, e in enumerate(gen.generators[0].target.elts) if isinstance(e, ast.Name) and e.id == arg.id]
+                if pos and pos[0] < len(it.args) and not any(xt(_strip_progress(x_)).startswith("range(") for _, x_, _ in guarded_values(repo, fit, it.args[pos[0]], stmt_of(c))):
+                    roles["est"] = prm
+                    continue
+            roles["index"] = prm
+    return roles
+
+
 def check_a(ck, repo):
     ci = repo.cls(MOD, "IntervalRegressor")
     fit = ci.methods["fit"]
@@ -54,7 +89,10 @@ def check_a(ck, repo):
     if task is None:
         raise AnalysisError("anchor vanished: the resampling task of IntervalRegressor.fit")
     ex = expander(repo)
-    pX = task.named_params[2]
+    roles = _roles(repo, fit, task, site)
+    if roles["X"] is None:
+        raise AnalysisError("anchor vanished: the resampling task does not receive fit's X")
+    pX = roles["X"]
     draws = [c for c in own_nodes_incl_lambda(task.node) if isinstance(c, ast.Call) and src_of(c.func).split(".")[-1] in ("randint", "integers", "choice", "permutation")]
     if len(draws) != 1:
         ck.unknown("C17.a", task, "rnd = numpy.random.randint(...)", f"{len(draws)} index draws")
@@ -95,7 +133,7 @@ def check_a(ck, repo):
     # size
     size = kwarg(c, "size") or (c.args[2] if len(c.args) > 2 else (c.args[1] if fn == "choice" and len(c.args) > 1 else None))
     sdef = ex.text(size, task, st) if size is not None else None
-    alpha = task.named_params[5] if len(task.named_params) > 5 else "alpha"
+    alpha = roles["alpha"] or "alpha"
     wants = {want(repo, f"int({pX}.shape[0] * {alpha} + 0.5)", task, st), want(repo, f"round({alpha} * {pX}.shape[0])", task, st), want(repo, f"int(round({alpha} * {pX}.shape[0]))", task, st)}
     ck.verdict(sdef in wants, "C17.b", task, f"size = {sdef}", "sample size is round(alpha * n)", f"the number of rows drawn is {sdef}, not round(alpha * n)")
 
@@ -105,7 +143,11 @@ def check_b(ck, repo):
     fit = ci.methods["fit"]
     task, site = _task(repo, fit)
     ex = expander(repo)
-    pE, pX, py_, psw = task.named_params[1:5]
+    roles = _roles(repo, fit, task, site) if site is not None else {}
+    pE, pX, py_, psw = roles.get("est"), roles.get("X"), roles.get("y"), roles.get("sw")
+    if None in (pE, pX, py_, psw):
+        ck.unknown("C17.b", fit, "task arguments", f"cannot tell which task parameters receive the model, X, y and sample_weight: {roles}")
+        return
     fits = calls(task, lambda c: isinstance(c.func, ast.Attribute) and c.func.attr == "fit")
     ok_sel = False
     if len(fits) == 1:
@@ -134,7 +176,16 @@ def check_b(ck, repo):
         bs = {k: src_of(v) for k, v in b.items()}
         m_arg = b.get(pE)
         E = m_arg.value.id if isinstance(m_arg, ast.Subscript) and isinstance(m_arg.value, ast.Name) and src_of(m_arg.slice) == lv else None
-        ok = bs.get(task.named_params[0]) == lv and E is not None and bs.get(pX) == fit.named_params[1] and bs.get(py_) == fit.named_params[2] and bs.get(psw) == fit.named_params[3] and ex.text(b[task.named_params[5]], fit, stmt_of(c)) == "self.alpha"
+        zipped = False
+        it_ = gen.generators[0].iter
+        if E is None and isinstance(m_arg, ast.Name) and isinstance(it_, ast.Call) and src_of(it_.func) == "zip" and isinstance(gen.generators[0].target, ast.Tuple):
+            # for _, est in zip(loop, estimators): model k is paired with position k of the loop
+            pos = [k for k, e in enumerate(gen.generators[0].target.elts) if isinstance(e, ast.Name) and e.id == m_arg.id]
+            if pos and pos[0] < len(it_.args) and isinstance(it_.args[pos[0]], ast.Name):
+                E = it_.args[pos[0]].id
+                zipped = True
+        idx_ok = zipped or (roles.get("index") is None) or bs.get(roles["index"]) == lv
+        ok = idx_ok and E is not None and bs.get(pX) == fit.named_params[1] and bs.get(py_) == fit.named_params[2] and bs.get(psw) == fit.named_params[3] and roles.get("alpha") is not None and ex.text(b[roles["alpha"]], fit, stmt_of(c)) == "self.alpha"
         ck.verdict(ok, "C17.b", fit, inner, "task i trains estimators[i] on a resample of (X, y, sample_weight) of relative size alpha", f"task arguments are {bs}")
         okc = False
         ds = defs_texts(repo, fit, E) if E else []
@@ -146,8 +197,17 @@ def check_b(ck, repo):
             okc = isinstance(v, ast.ListComp) and _t(v.elt) == "clone(self.estimator)" and len(v.generators) == 1 and not v.generators[0].ifs and _t(v.generators[0].iter) in ("range(self.n_estimators)", "range(0, self.n_estimators)")
         ck.verdict(okc, "C17.b", fit, ds[0][0] if ds else "estimators = [...]", "n_estimators clones of the base regressor", "the list of models is not one fresh clone per range(self.n_estimators)")
         st = stmt_of(c)
-        vals = [xt(_strip_progress(x)) for _, x, _ in guarded_values(repo, fit, gen.generators[0].iter, st)]
         w = want(repo, f"range(len({E}))", fit, st) if E else None
+        if zipped:
+            # zip(loop, estimators): as long as the shorter argument; every other argument must be range(len(estimators))
+            vals = []
+            for a_ in it_.args:
+                if isinstance(a_, ast.Name) and a_.id == E:
+                    continue
+                vals += [xt(_strip_progress(x)) for _, x, _ in guarded_values(repo, fit, a_, st)]
+            vals = vals or ([w] if w else [])
+        else:
+            vals = [xt(_strip_progress(x)) for _, x, _ in guarded_values(repo, fit, gen.generators[0].iter, st)]
         ck.verdict(bool(vals) and all(v == w for v in vals), "C17.b", fit, f"task loop over {sorted(set(v[:40] for v in vals))}", "every model is trained", "the task loop does not cover range(len(estimators))")
         ck.verdict(isinstance(st, ast.Assign) and any(is_self_attr(t, "estimators_") for t in st.targets), "C17.b", fit, "self.estimators_ = Parallel(...)", "fitted models stored in order", "fitted models are not stored as estimators_")
     # aggregation
@@ -156,15 +216,44 @@ def check_b(ck, repo):
     pp = [p for p in paths(pa) if p.ret != RAISE]
     oka = False
     loops = [l for l in own_nodes(pa.node) if isinstance(l, ast.For)]
-    if len(pp) == 1 and len(loops) == 1 and isinstance(pp[0].ret, ast.AST):
+    EST = "self.estimators_"
+
+    def _sub_env(e, p_):
+        from engine.patheval import _Sub
+
+        return _t(_Sub(p_.env).visit(clone_ast(e)))
+
+    full = [p for p in pp if p.stores]
+    empty = [p for p in pp if not p.stores]
+    if len(loops) == 1 and full and all(isinstance(p.ret, ast.AST) for p in pp):
         l = loops[0]
-        R = pp[0].ret_text()
-        shape = R.replace(" ", "")
-        alloc = any(shape.startswith(f"numpy.{fn_}(({X}.shape[0],len(self.estimators_))") for fn_ in ("empty", "zeros"))
-        if isinstance(l.iter, ast.Call) and src_of(l.iter.func) == "enumerate" and src_of(l.iter.args[0]) == "self.estimators_" and isinstance(l.target, ast.Tuple) and len(l.target.elts) == 2:
-            i_, e_ = [src_of(x) for x in l.target.elts]
-            st = {k: _t(v) for k, v in pp[0].stores.items()}
-            oka = alloc and st == {f"{R}[:, {i_}__L{l.lineno}]": f"{e_}__L{l.lineno}.predict({X})"}
+        oka = True
+        for p in full:
+            R = p.ret_text()
+            shape = R.replace(" ", "")
+            alloc = any(shape.startswith(f"numpy.{fn_}(({X}.shape[0],len({EST}))") for fn_ in ("empty", "zeros"))
+            st = {k: _t(v) for k, v in p.stores.items()}
+            ok_p = False
+            it = l.iter
+            if isinstance(it, ast.Call) and src_of(it.func) == "enumerate" and len(it.args) == 1 and isinstance(l.target, ast.Tuple) and len(l.target.elts) == 2:
+                i_, e_ = [src_of(x) for x in l.target.elts]
+                ok_p = _sub_env(it.args[0], p) == EST and st == {f"{R}[:, {i_}__L{l.lineno}]": f"{e_}__L{l.lineno}.predict({X})"}
+            elif isinstance(it, ast.Call) and src_of(it.func) == "zip" and len(it.args) == 2 and isinstance(l.target, ast.Tuple) and len(l.target.elts) == 2 and all(isinstance(x, ast.Name) for x in l.target.elts):
+                # for column, est in zip(container.T, estimators): column[:] = est.predict(X)
+                # (iterating the transposed buffer yields views on its columns, in order)
+                names_ = [x.id for x in l.target.elts]
+                args_ = [_sub_env(a, p) for a in it.args]
+                if f"{R}.T" in args_ and EST in args_ and args_.index(f"{R}.T") != args_.index(EST):
+                    c_ = names_[args_.index(f"{R}.T")]
+                    e_ = names_[args_.index(EST)]
+                    ok_p = st == {f"{c_}__L{l.lineno}[:]": f"{e_}__L{l.lineno}.predict({X})"}
+            oka = oka and alloc and ok_p
+        for p in empty:
+            # an early exit is acceptable only for "no estimator": the empty buffer is returned
+            shape = p.ret_text().replace(" ", "")
+            none = truth_of(p.conds, f"len({EST}) == 0") is True or truth_of(p.conds, f"0 == len({EST})") is True or truth_of(p.conds, EST) is False or truth_of(p.conds, f"len({EST})") is False
+            oka = oka and none and any(shape.startswith(f"numpy.{fn_}(({X}.shape[0],len({EST}))") for fn_ in ("empty", "zeros"))
+        pp = full[:1] if full else pp
     # the buffer keeps the predictions as they are: float64 (the default), not the dtype of X
     if len(pp) == 1 and isinstance(pp[0].ret, ast.Call):
         dt = [k.value for k in pp[0].ret.keywords if k.arg == "dtype"] + list(pp[0].ret.args[1:2])
@@ -174,28 +263,39 @@ def check_b(ck, repo):
     ck.verdict(oka, "C17.b", pa, "container[:, i] = estimators_[i].predict(X) for every i", "column i of the matrix is estimator i's prediction for every row", "predict_all is not [one column per estimator, column i = estimators_[i].predict(X)]")
     Xp = pr.named_params[1]
     r = [p.ret_text() for p in paths(pr) if p.ret != RAISE]
-    ck.verdict(r in ([f"self.predict_all({Xp}).mean(axis=1)"], [f"numpy.mean(self.predict_all({Xp}), axis=1)"], [f"self.predict_all({Xp}).mean(1)"]), "C17.b", pr, f"return {r}", "predict = row-wise mean of the individual predictions", f"predict is not predict_all(X).mean(axis=1): {r}")
+    ck.verdict(r in ([f"self.predict_all({Xp}).mean(axis=1)"], [f"numpy.mean(self.predict_all({Xp}), axis=1)"], [f"self.predict_all({Xp}).mean(1)"], [f"numpy.mean(self.predict_all({Xp}), 1)"], [f"numpy.average(self.predict_all({Xp}), axis=1)"]), "C17.b", pr, f"return {r}", "predict = row-wise mean of the individual predictions", f"predict is not predict_all(X).mean(axis=1): {r}")
     Xs = ps.named_params[1]
     P = f"self.predict_all({Xs})"
     pps = [p for p in paths(ps) if p.ret != RAISE]
-    oks = False
-    if len(pps) == 1:
-        p = pps[0]
+    oks = bool(pps)
+    loops = [l for l in own_nodes(ps.node) if isinstance(l, ast.For)]
+    for p in pps:
         rt = p.ret_text()
         st = {k: _t(v) for k, v in p.stores.items()}
-        loops = [l for l in own_nodes(ps.node) if isinstance(l, ast.For)]
+        ok_p = False
         if rt in (f"numpy.sort({P}, axis=1)", f"numpy.sort({P})", f"numpy.sort({P}, axis=-1)") and not st:
-            oks = True
+            ok_p = True
         elif rt == P and not st and not loops:
             ip = [_t(c_) for c_ in p.calls if isinstance(c_.func, ast.Attribute) and c_.func.attr == "sort"]
-            oks = ip in ([f"{P}.sort(axis=1)"], [f"{P}.sort()"], [f"{P}.sort(axis=-1)"], [f"{P}.sort(1)"])
-        elif rt == P and len(loops) == 1 and isinstance(loops[0].target, ast.Name):
+            ok_p = ip in ([f"{P}.sort(axis=1)"], [f"{P}.sort()"], [f"{P}.sort(axis=-1)"], [f"{P}.sort(1)"])
+        elif rt == P and not st and loops:
+            # an exit before the loop: only where every row has at most one element
+            ok_p = any(truth_of(p.conds, t) is True for t in (f"{P}.shape[1] <= 1", f"{P}.shape[1] < 2", f"{P}.shape[1] == 0")) or any(truth_of(p.conds, t) is False for t in (f"{P}.shape[1] > 1", f"1 < {P}.shape[1]", f"{P}.shape[1] >= 2"))
+        elif rt == P and len(loops) == 1:
             l = loops[0]
-            iv = f"{l.target.id}__L{l.lineno}"
-            m_ = re.match(r"^range\((?:(\w+)\.shape\[0\]|len\((\w+)\))\)$", src_of(l.iter).replace(" ", ""))
-            nm_ = (m_.group(1) or m_.group(2)) if m_ else None
-            it_ok = nm_ is not None and [t for _, t in defs_texts(repo, ps, nm_)] == [want(repo, P, ps, l)]
-            oks = it_ok and st in ({f"{P}[{iv}, :]": f"numpy.sort({P}[{iv}, :])"}, {f"{P}[{iv}]": f"numpy.sort({P}[{iv}])"})
+            from engine.patheval import _Sub
+
+            it_t = _t(_Sub(p.env).visit(clone_ast(l.iter)))
+            if isinstance(l.target, ast.Name):
+                iv = f"{l.target.id}__L{l.lineno}"
+                m_ = re.match(r"^range\((?:(.+)\.shape\[0\]|len\((.+)\))\)$", it_t.replace(" ", ""))
+                nm_ = (m_.group(1) or m_.group(2)) if m_ else None
+                if nm_ is not None and nm_ == P.replace(" ", ""):
+                    ok_p = st in ({f"{P}[{iv}, :]": f"numpy.sort({P}[{iv}, :])"}, {f"{P}[{iv}]": f"numpy.sort({P}[{iv}])"})
+                elif it_t == P:
+                    # for row in preds: row[:] = numpy.sort(row)  (rows of a 2-d array are views)
+                    ok_p = st == {f"{iv}[:]": f"numpy.sort({iv})"}
+        oks = oks and ok_p
     ck.verdict(oks, "C17.b", ps, "every row of predict_all(X) sorted ascending", "each row of the same matrix sorted ascending", "predict_sorted is not the row-wise ascending sort of predict_all(X)")
 
 
